@@ -10,4 +10,5 @@ TabRow(c) == [cls |-> c, kind |-> PTab[c].kind, rt |-> PTab[c].rt, mro |-> PTab[
 EmitTab == (pstage = "a" /\ phist = << >>) =>
               /\ PrintT(ToJson([order |-> PNameOrder]))
               /\ \A c \in PClassNames : PrintT(ToJson(TabRow(c)))
+              /\ \A f \in DOMAIN PFun : PrintT(ToJson([fn |-> f, ps |-> PFun[f].ps, t |-> PFun[f].t]))
 =============================================================================
